@@ -17,6 +17,7 @@ import Comrak.Drv.Canon
 import Comrak.Drv.C01
 import Comrak.Drv.C04
 import Comrak.Drv.Cm
+import Comrak.Drv.C06
 namespace Comrak.Drv
 
 def handlers : List Handler :=
@@ -34,6 +35,7 @@ def handlers : List Handler :=
   , Comrak.Drv.C01.handle
   , Comrak.Drv.C04.handle
   , Comrak.Drv.Cm.handle
+  , Comrak.Drv.C06.handle
   ]
 
 end Comrak.Drv
